@@ -409,6 +409,22 @@ class JStand(Obj):
     pass
 
 
+class CtrlPt(StandIn):
+    """control point of a stand-in piece, and anything computed from control points (chord midpoints ...): such a point
+    is in general NOT on a curved piece"""
+
+    def __init__(self, piece, what="control point"):
+        self.piece, self.what = piece, what
+
+    def _derived(self, *a):
+        return CtrlPt(self.piece, "a point computed from control points")
+
+    __add__ = __radd__ = __sub__ = __rsub__ = __mul__ = __rmul__ = __truediv__ = __neg__ = _derived
+
+    def __repr__(self):
+        return f"<{self.what} of {self.piece}>"
+
+
 def _world():
     """two stand-in shapes; status of each piece's midpoint w.r.t. the *other* shape.  The first curve of B is far
     away (its bounding box meets no curve of A); the second one crosses A."""
@@ -416,7 +432,7 @@ def _world():
     status = {}
 
     def seg(name, st):
-        o = Obj(name)
+        o = Obj(name, degree=2, npts=3, ctrlpoints=(CtrlPt(name), CtrlPt(name), CtrlPt(name)))
         status[name] = st
         return o
 
@@ -449,6 +465,12 @@ def run_core(ctx, name):
         if cname == "contains_point" and isinstance(recv, Obj) and recv._name in ("A", "B"):
             mid = args[0]
             closed = args[1] if len(args) > 1 else kwargs.get("boundary", kwargs.get("closed", True))
+            if isinstance(mid, CtrlPt):
+                # not a point of the (curved) piece: it may lie on either side of the other boundary -- answer against
+                # the piece's true status
+                events.append(("offcurve", mid.piece, mid.what))
+                st = status[mid.piece]
+                return not (st == "in" or (st == "on" and bool(closed)))
             if not (isinstance(mid, tuple) and mid[0] == "mid"):
                 raise Undecided("contains_point on something that is not a piece midpoint")
             owner = "A" if mid[1].startswith("a") else "B"
@@ -498,6 +520,11 @@ def r01_2(ctx):
             out.bad(fn.qname, "selected indices do not address the curve list handed to follow_path "
                               "(offset of the second operand inconsistent with the concatenation order)", where=fn.where(),
                     detail=str(ex))
+            continue
+        off = [e for e in events if e[0] == "offcurve"]
+        if off:
+            out.bad(fn.qname, "boundary pieces are classified by a point that need not lie on the piece", where=fn.where(),
+                    detail=f"piece {off[0][1]} is tested with {off[0][2]} (for a curved piece the chord is not the curve)")
             continue
         tests = [e for e in events if e[0] == "test"]
         mids = {e[2] for e in tests}
